@@ -3,7 +3,7 @@ executor with resizes racing with time-outs)."""
 from ..composite import Composite
 from ..e1 import E1Part, ReusePart
 
-E1 = E1Part("C07", [("timeouts", 3), ("leak", 1), ("graceful", 1), ("respawn", 2)], ["C07", "C03", "C01"],
-            ["LokyModel.Props.C07", "LokyModel.Props.C07Live", "LokyModel.Props.C07LiveCrash"], quick=1200, thorough=40000)
+E1 = E1Part("C07", [("timeouts", 3), ("leak", 1), ("graceful", 1), ("respawn", 2), ("saturatetmo", 2)], ["C07", "C03", "C01", "C08"],
+            ["LokyModel.Props.C07", "LokyModel.Props.C07Live", "LokyModel.Props.C07LiveCrash"], quick=1200, thorough=40000, starve=2)
 REUSE = ReusePart("C07", ["C07", "C03", "C01", "C10"], [], quick=500, thorough=15000, families=[("reuse", 1)])
 PROP = Composite("C07", [E1, REUSE])
